@@ -10,6 +10,7 @@ for the element-order dimension; attribute order, prefixes, whitespace and escap
 of the model (lxml's business) and are exercised per run through the independent writer.
 -/
 import CassisModel.Proofs.LoadPerm
+import CassisModel.Proofs.RoundTripDemo
 
 namespace Cassis.Xmi
 open Cassis.TS Cassis.Traverse
@@ -40,5 +41,29 @@ theorem xmi_load_perm_flat (K : Consts) (ts : TypeSystem) (cass : List Cas) (ci 
       (∀ q ∈ st.allFs, q.1 < ld'.cas.nextXid) ∧
       (∀ nv ∈ c.views, nv.2.sofa.xid < ld'.cas.nextXid ∧ nv.2.sofa.sofaNum < ld'.cas.nextSofaNum) :=
   xmi_load_perm_flat_aux K ts cass ci c hp tsIdx ci' doc doc' st hc hwf hnull hsave hflat hdis hmem hmok hperm
+
+/-! ### Non-vacuity
+
+The instance of `Proofs/RoundTripDemo.lean` (type system with the annotation type `x.Tok`, a CAS over the text `a😀b`, two
+`x.Tok` structures referring to each other, one of them indexed): all hypotheses hold (`Demo.demo_hyps`), and the written
+document REVERSED (views before sofas before structures, the later structure before the earlier one it refers to, the
+`cas:NULL` element last) is a permutation of it, so the theorem applies: the reversed document loads, to the same view
+content. -/
+
+example : ∃ (doc : XDoc) (st : St) (p' : Pass1) (ld' : Loaded),
+    saveXmi Demo.K Demo.demoTS [Demo.demo.1] 0 Demo.demo.2 = .ok (doc, st) ∧
+    doc.reverse.Perm doc ∧
+    pass1 Demo.K Demo.demoTS 0 false doc.reverse { heap := st.heap } = .ok p' ∧
+    loadXmi Demo.K Demo.demoTS 0 1 false st.heap doc.reverse = .ok ld' ∧
+    (p'.fss.map (·.1)).Perm (0 :: (sortById st.allFs).map (·.1)) ∧
+    (ld'.cas.views.map (viewContent ld'.heap)).Perm (Demo.demo.1.views.map (viewContent st.heap)) ∧
+    (ld'.cas.views.head?).map (·.1) = some Cas.INITIAL_VIEW := by
+  obtain ⟨doc, st, hs, hc, hwf, hn, hf, hd, hm, hmo⟩ := Demo.demo_hyps
+  obtain ⟨p', ld', hp, hl, hids, _, hv, hh, _⟩ :=
+    xmi_load_perm_flat Demo.K Demo.demoTS [Demo.demo.1] 0 Demo.demo.1 Demo.demo.2 0 1 doc doc.reverse st
+      hc hwf hn hs hf hd hm hmo (List.reverse_perm doc)
+  exact ⟨doc, st, p', ld', hs, List.reverse_perm doc, hp, hl, hids, hv, hh⟩
+
+#print axioms xmi_load_perm_flat
 
 end Cassis.Xmi
